@@ -224,6 +224,12 @@ def run(ctx):
 
         # ---- B3
         check_vm_pairs(ctx, prog, tag)
+        from .pairs import check_closers
+        nb = check_closers(ctx, prog, tag, "C05.B3.vm-closer-only-after-successful-opener",
+                           why=": it undoes state the construct did not set up (a charge that was rolled back, a closure "
+                               "that was not taken, a block layer that was not entered)")
+        if tag != "[MIN]":
+            ctx.floor("C05.B3 closer sites" + tag, nb, 4)
         # ---- B4
         check_with_execution_state(ctx, prog, tag)
     ctx.sample({"summaries": {k.split("::")[-1]: repr(v) for k, v in list(an.summaries.items())[:40] if v and v.key() != State().key()}})
